@@ -110,7 +110,7 @@ def generate(seed, tier):
     params = {
         'contigs': contigs, 'bin_size': bin_size, 'max_fragment_size': mfs,
         'min_mq': w.choice([None, 0, 20, 50, 60]), 'key_tags': w.choice([None, None, ['DA']]),
-        'dedup': w.random() < 0.8, 'ignore_mp': w.random() < 0.1,
+        'dedup': w.random() < 0.8, 'ignore_mp': w.random() < 0.25,
         # several libraries counted together (generate_commands accepts a list of BAMs, as bamCopyNumber passes it); cells are disjoint between files
         'split_files': w.random() < 0.25,
     }
